@@ -280,6 +280,23 @@ def rule_free(ctx):
     j = cb.methods['join']
     ctx.ob('C16.free', f'{j.fq}', 'if self.adjoins(block):' in full(j.node) and 'size = max(self.start + self.size, block.start + block.size) - start' in full(j.node),
            'blocks are joined only when adjoining and span both', j.node, mod)
+    ad = cb.methods['adjoins']
+    rets = [x for x in walk_local(ad.node) if isinstance(x, ast.Return)]
+    env = {norm(x.targets[0]): norm(x.value) for x in walk_local(ad.node) if isinstance(x, ast.Assign)}
+    bp = ad.params[1]
+    want_env = {'st': 'self.start', 'sz': 'self.size', 'st2': f'{bp}.start', 'sz2': f'{bp}.size'}
+    ok = len(rets) == 1 and env == want_env and norm(rets[0].value) == 'st < st2 and st + sz >= st2 or (st > st2 and st2 + sz2 >= st)'
+    ctx.ob('C16.free', f'{ad.fq}', ok,
+           'two blocks adjoin when the lower one reaches (or overlaps) the start of the upper one, in either order; equal starts never adjoin',
+           ad.node, mod)
+    for hn, opname in (('_add_to_freed', 'add'), ('_remove_from_freed', 'remove')):
+        h = ci.methods[hn]
+        hp = h.params[1]
+        src = full(h.node)
+        keyed = re.findall(r'self\._freed\[([^\]]+)\]', src) + re.findall(r'self\._freed\.get\(([^)]+)\)', src)
+        ok = bool(keyed) and all(k == f'{hp}.size' for k in keyed) and f'self._freed[{hp}.size].{opname}({hp})' in src
+        ctx.ob('C16.free', f'{h.fq}:keyed-by-size', ok,
+               f'the free list is a dict size -> set of blocks: {hn} must file the block under its own size (found keys {sorted(set(keyed))})', h.node, mod)
     a = ci.methods['alloc']
     src = full(a.node)
     ok = 'block = self._find_available(n)' in src and 'if block is not None: return self._reserve(block.start, n, block).start else: return None' in src
@@ -414,6 +431,10 @@ def run(ctx):
 
 
 MUTANTS = [
+    dict(rule='C16.free', name='adjoins requires a strict overlap', file='sc3/synth/_engine.py',
+         old="        return (st < st2 and st + sz >= st2) or (st > st2 and st2 + sz2 >= st)", new="        return (st < st2 and st + sz > st2) or (st > st2 and st2 + sz2 > st)"),
+    dict(rule='C16.free', name='free list entry removed under the wrong size', file='sc3/synth/_engine.py',
+         old="            if block in self._freed[block.size]:\n                self._freed[block.size].remove(block)", new="            if block in self._freed[block.size]:\n                self._freed[block.size - 1].remove(block)"),
     dict(rule='C16.free', name='joined block not carried on to the second merge', file='sc3/synth/_engine.py',
          old="                    if self.top > tmp.start: self._add_to_freed(tmp)\n                    block = tmp\n", new="                    if self.top > tmp.start: self._add_to_freed(tmp)\n"),
     dict(rule='C16.free', name='(fix reverted) free indexes the slot array with an unchecked address', file='sc3/synth/_engine.py',
